@@ -1,4 +1,4 @@
-\* C17 spec-level negative controls: small spaces; c17.py sets Mode, switches ONE of the six constants
+\* C17 spec-level negative controls: small spaces; c17.py sets Mode, switches ONE of the eight negative-control constants
 \* to TRUE, keeps ONE invariant and requires TLC to report it (see CopyrightDoc.tla)
 CONSTANTS
   Mode = "codec"
@@ -18,6 +18,11 @@ CONSTANTS
   StaleDump = FALSE
   LicMemoBySynopsis = FALSE
   ParseMemoAliased = FALSE
+  CommaSeparates = FALSE
+  RejectDrops = FALSE
+  RejAt = {1}
+  RejThen = 2
+  RejEditAt = {1}
 SPECIFICATION Spec
 INVARIANT CodecNormal
 INVARIANT CodecLaw
